@@ -1,2 +1,97 @@
-(* C18/Props.v -- placeholder, filled below *)
-From Verif Require Import C18.Model C18.ModelW C18.Corr.
+(* C18/Props.v -- property theorems only; each is closed by [exact] of a lemma from
+   C18/Proofs*.v and followed by Print Assumptions.  The models are C18/Model.v
+   (Fourier part) and C18/ModelW.v (wavelet bookkeeping), tied to /repo by the
+   correspondence shards (C18/Corr.v).  Carrier: R; [cx] = R * R. *)
+From Coq Require Import Reals List Bool Arith.
+From Verif Require Import Base.Num C18.Model C18.ModelW C18.ProofsGrid C18.ProofsDFT C18.ProofsCx.
+Import ListNotations.
+Local Open Scope R_scope.
+
+(* ------------------------------------------------------------------ *)
+(* G1: reciprocal_grid has stride 2 pi / (n s) on every transformed axis: every length >= 2,
+   both parities, shifted or not, halved (half-complex last axis) or not. *)
+Theorem reciprocal_stride : forall (pi : R) (a : @axis R) (sh half : bool),
+  (2 <= a_n a)%nat -> stride a <> 0 ->
+  stride (recip_axis pi a (Some sh) half) = 2 * pi / (INR (a_n a) * stride a).
+Proof. exact recip_stride_all. Qed.
+Print Assumptions reciprocal_stride.
+
+(* G2: its points are xi_k = (k - n/2) D (shifted) or (k - (n-1)/2) D (unshifted), D = 2 pi/(n s):
+   zero is a grid point exactly for (shifted, even n) and (unshifted, odd n). *)
+Theorem reciprocal_points : forall (pi : R) (a : @axis R) (sh half : bool) (k : nat),
+  (2 <= a_n a)%nat -> stride a <> 0 ->
+  coord (recip_axis pi a (Some sh) half) k =
+  (INR k - (if sh then INR (a_n a) / 2 else (INR (a_n a) - 1) / 2)) * (2 * pi / (INR (a_n a) * stride a)).
+Proof. exact recip_coord. Qed.
+Print Assumptions reciprocal_points.
+
+(* G3: realspace_grid(reciprocal_grid(g), x0 = g.min_pt, parity of the halved axis) = g for
+   grids of any dimension, any axes subset (in any order), any per-axis shifts, with or without
+   half-complex; transformed axes need >= 2 points (the code raises otherwise, see
+   [real_axis_ok] and the correspondence), the other axes are left alone. *)
+Theorem realspace_of_reciprocal_grid : forall (pi : R) (g : list (@axis R)) (axes : list nat)
+    (shifts : list bool) (hc : bool),
+  pi <> 0 -> length shifts = length axes -> axes <> [] ->
+  (forall i, In i axes -> (2 <= a_n (nth i g dax))%nat /\ stride (nth i g dax) <> 0) ->
+  (forall i, (i < length g)%nat -> ~ In i axes -> plain_axis (nth i g dax)) ->
+  real_grid pi (recip_grid pi g axes shifts hc) (map a_min g) axes
+            (if hc then Some (Nat.odd (a_n (nth (last_axis axes) g dax))) else None) = g.
+Proof. exact real_recip_grid_roundtrip. Qed.
+Print Assumptions realspace_of_reciprocal_grid.
+
+(* ... and the guard of realspace_grid accepts every reciprocal axis *)
+Theorem realspace_accepts_reciprocal : forall (pi : R) (a : @axis R) (sh half : bool),
+  pi <> 0 -> (2 <= a_n a)%nat -> stride a <> 0 ->
+  real_axis_ok (recip_axis pi a (Some sh) half) true
+               (if half then Some (Nat.odd (a_n a)) else None) = true.
+Proof. exact real_axis_ok_recip. Qed.
+
+(* with the wrong halfcx_parity the reconstructed axis has the wrong number of points *)
+Theorem wrong_parity_changes_shape : forall n, (1 <= n)%nat ->
+  real_n (n / 2 + 1) (Some (negb (Nat.odd n))) <> n.
+Proof. exact real_n_recip_wrong. Qed.
+
+(* G4: the frequencies at which dft_postprocess_data evaluates the interpolation kernel
+   (its own fmin/fmax case analysis by shift, parity and half-complex) are exactly the
+   reciprocal grid points times s / (2 pi) -- in every one of the parity/shift/half cases. *)
+Theorem postprocess_frequencies_match_grid : forall (pi : R) (a : @axis R) (sh half : bool) (k : nat),
+  pi <> 0 -> (2 <= a_n a)%nat -> stride a <> 0 ->
+  freq (a_n a) (a_n (recip_axis pi a (Some sh) half)) sh k =
+  coord (recip_axis pi a (Some sh) half) k * stride a / (2 * pi).
+Proof. exact freq_is_normalised_xi. Qed.
+Print Assumptions postprocess_frequencies_match_grid.
+
+(* ------------------------------------------------------------------ *)
+(* D1: Fourier inversion for the naive DFT over ANY commutative ring without zero divisors,
+   every length n: if w is a primitive n-th root of unity with inverse wi and n is
+   invertible, the transform with wi scaled by 1/n inverts the transform with w. *)
+Theorem dft_inversion_abstract : forall (C : Type) (z0 z1 : C) (zadd zmul zsub : C -> C -> C) (zopp : C -> C),
+  ring_theory z0 z1 zadd zmul zsub zopp eq ->
+  (forall a b, zmul a b = z0 -> a = z0 \/ b = z0) ->
+  forall (w wi : C) (n : nat),
+  zmul w wi = z1 -> pw C z1 zmul w n = z1 ->
+  (forall d, (0 < d < n)%nat -> pw C z1 zmul w d <> z1) ->
+  forall ninv : C, zmul ninv (nC C z0 z1 zadd n) = z1 ->
+  forall x : list C, length x = n ->
+  map (fun a => zmul ninv a) (dft_gen z0 zadd zmul (pw C z1 zmul wi) (dft_gen z0 zadd zmul (pw C z1 zmul w) x)) = x.
+Proof. exact dft_inversion. Qed.
+Print Assumptions dft_inversion_abstract.
+
+(* D2: the model's 1-d transforms (DiscreteFourierTransform / ...Inverse along one axis, with
+   the ODL normalisation: forward unnormalised for both signs, inverse divided by n):
+   inverse(sign -s) o forward(sign s) = id for EVERY length (even, odd, 1) and both signs,
+   for any phase map obeying the exponential laws ... *)
+Theorem dft_inverse_recovers_input : forall cispi : R -> @cx R,
+  (forall a b, cispi (a + b) = cmul (cispi a) (cispi b)) -> cispi 0 = c1 -> cispi 2 = c1 ->
+  (forall r, 0 < r < 2 -> cispi r <> c1) ->
+  forall (sg : R) (x : list (@cx R)), sg = 1 \/ sg = -1 ->
+  idft1 cispi (- sg) (dft1 cispi sg x) = x.
+Proof. exact idft1_dft1. Qed.
+Print Assumptions dft_inverse_recovers_input.
+
+(* ... which the true a |-> exp(i pi a) does obey (the premises are satisfiable): *)
+Theorem true_phase_map_laws :
+  (forall a b, cis_true (a + b) = cmul (cis_true a) (cis_true b)) /\ cis_true 0 = c1 /\ cis_true 2 = c1
+  /\ (forall r, 0 < r < 2 -> cis_true r <> c1).
+Proof. exact (conj cis_true_add (conj cis_true_0 (conj cis_true_2 cis_true_prim))). Qed.
+Print Assumptions true_phase_map_laws.
